@@ -37,6 +37,7 @@ type c06Case struct {
 	StopFirst  bool          // Handler.Stop() of handler 1 is called (and Stopped() awaited) while m1 is inside its handler function, then Close arrives
 	FailSecond bool          // the second handler's Subscribe fails: Run returns an error from its start-up, the first handler keeps working
 	EarlyClose bool          // Close is called while Run is still subscribing the handlers (slow Subscribe calls), no messages
+	NilPub     bool          // the last handler was added with a nil Publisher (it returns no messages): at shutdown it is a handler like any other, with nothing to close
 	Conf       bool          // conformance run: internal hook events are recorded as well (RouterLifecycleImplTrace)
 }
 
@@ -97,6 +98,14 @@ func runC06(c *Ctx) error {
 		cases = append(cases, c06Case{Class: "timeout/" + src, Source: src, Label: "handler", Closers: 1, Handlers: 1, Msgs: 1, Slow: 700 * time.Millisecond, Timeout: 150 * time.Millisecond, Repeat: true})
 		cases = append(cases, c06Case{Class: "timeout/" + src, Source: src, Label: "handler", Closers: 2, Handlers: 1, Msgs: 1, Slow: 500 * time.Millisecond, Timeout: 100 * time.Millisecond})
 	}
+	// a negative CloseTimeout is a time-out that has passed already: Close reports it at once instead of waiting (the handler runs on for longer than the slack of the timing oracle)
+	for _, src := range []string{"scripted", "gochannel"} {
+		cases = append(cases, c06Case{Class: "negative-timeout/" + src, Source: src, Label: "handler", Closers: 1, Handlers: 1, Msgs: 1, Slow: 2 * time.Second, Timeout: -time.Millisecond}) // (no Close afterwards: with nothing left to wait for, a time-out that has passed and a wait that is over are both true)
+		cases = append(cases, c06Case{Class: "negative-timeout/" + src, Source: src, Label: "handler", Closers: 3, Handlers: 2, Msgs: 1, Slow: 1800 * time.Millisecond, Timeout: -time.Hour})
+		// a handler without a publisher (nil)
+		cases = append(cases, c06Case{Class: "nil-publisher/" + src, Source: src, Label: "handler", Closers: 1, Handlers: 1, Msgs: 2, Timeout: 3 * time.Second, NilPub: true})
+		cases = append(cases, c06Case{Class: "nil-publisher/" + src, Source: src, Label: "router.handle.start", Closers: 2, Handlers: 3, Msgs: 1, Timeout: 3 * time.Second, NilPub: true, Repeat: true})
+	}
 	// ... also when the subscriber's Close() drains (the receive loop does not end before the handler does)
 	cases = append(cases, c06Case{Class: "timeout-draining/scripted", Source: "scripted", Label: "handler", Closers: 1, Handlers: 1, Msgs: 1, Slow: 3 * time.Second, Timeout: 100 * time.Millisecond, Drain: true})
 	cases = append(cases, c06Case{Class: "timeout-draining/scripted", Source: "scripted", Label: "handler", Closers: 2, Handlers: 2, Msgs: 1, Slow: 3 * time.Second, Timeout: 150 * time.Millisecond, Drain: true, Repeat: true})
@@ -137,7 +146,14 @@ func runC06(c *Ctx) error {
 		if cs.FailSecond {
 			nh = 1 // only the first handler ever holds a subscription
 		}
-		runs[i] = T.NewRun(cs.Class, map[string]any{"nh": nh, "expectsubclose": !cs.StopFirst && !cs.FailSecond, "timeout": int64(cs.Timeout / time.Microsecond)})
+		np, tmo := nh, cs.Timeout
+		if cs.NilPub {
+			np--
+		}
+		if tmo < 0 {
+			tmo = 0 // (a time-out that has passed already)
+		}
+		runs[i] = T.NewRun(cs.Class, map[string]any{"nh": nh, "np": np, "expectsubclose": !cs.StopFirst && !cs.FailSecond, "timeout": int64(tmo / time.Microsecond)})
 		runs[i].Key = fmt.Sprintf("%+v/%d", cs, i)
 		if cs.Conf {
 			confRuns[i] = TC.NewRun("conformance", nil)
@@ -218,6 +234,9 @@ func c06RunC(r *tr.Run, rc *tr.Run, cs c06Case) (gateReached bool) {
 	if cs.FailSecond {
 		wantPubs = 1
 	}
+	if cs.NilPub {
+		wantPubs--
+	}
 	handles := map[int]*message.Handler{}
 	mname := func(h, k int) string {
 		if cs.Conf {
@@ -265,7 +284,12 @@ func c06RunC(r *tr.Run, rc *tr.Run, cs c06Case) (gateReached bool) {
 		} else {
 			sub = closeSpy{gc, func() { r.Emit("subclose") }}
 		}
-		handles[h] = router.AddHandler(hname, fmt.Sprintf("t%d", h), sub, "out", pub, func(msg *message.Message) ([]*message.Message, error) {
+		var hpub message.Publisher = pub
+		nilPub := cs.NilPub && h == cs.Handlers
+		if nilPub {
+			hpub = nil
+		}
+		handles[h] = router.AddHandler(hname, fmt.Sprintf("t%d", h), sub, "out", hpub, func(msg *message.Message) ([]*message.Message, error) {
 			m := msg.UUID[len(prefix):]
 			mu.Lock()
 			objs[m] = msg
@@ -279,6 +303,9 @@ func c06RunC(r *tr.Run, rc *tr.Run, cs c06Case) (gateReached bool) {
 			emitC("hend", "m", m)
 			if cs.Panics && msg.UUID == m1 {
 				panic("scripted handler panic")
+			}
+			if nilPub {
+				return nil, nil
 			}
 			return []*message.Message{message.NewMessage(msg.UUID+".o", nil)}, nil
 		})
